@@ -252,7 +252,7 @@ def plan(prop, tier):
     if not q:
         # the thorough tier has minutes, not seconds: deepen the cheap (native, non-sanitizer)
         # random workloads by a constant factor
-        boost = int(os.environ.get("VERIF_THOROUGH_BOOST", "6"))
+        boost = int(os.environ.get("VERIF_THOROUGH_BOOST", "12"))
         for sh in P:
             if sh["fl"] in ("release", "debug", "ext", "extdebug") and sh["args"][0] in ("hist", "sets", "meta", "clones", "serde", "plain", "limits", "iterstates", "dropbomb", "prefix", "par"):
                 a = sh["args"]
